@@ -837,6 +837,52 @@ func syncFence(m *meta, rng *rand.Rand, round int) {
 	m.count("sync_fence_rounds")
 }
 
+// inlineBehindDequeued (C04, C01): the worker has DEQUEUED SetAsync(7,1) (the ring looks empty) and is parked right
+// before the shard lock, still holding the drain token; SetAsync(7,2) issued now must not be applied ahead of it.
+// Deterministic through the scheduler hooks; the policies whose shards have no sieve state included.
+func inlineBehindDequeued(m *meta, rng *rand.Rand, round int) {
+	conf := kioshun.Config{ShardCount: 1, MaxSize: pick(rng, []int64{0, 0, 64}), EvictionPolicy: pick(rng, []kioshun.EvictionPolicy{kioshun.LRU, kioshun.SieveTinyLFU, kioshun.FIFO, kioshun.LFU}), WriteBufferSize: pick(rng, []int{2, 4, 8}), WriteBatchSize: pick(rng, []int{1, 2, 64})}
+	ctx := fmt.Sprintf("inline behind dequeued round %d cfg %+v", round, conf)
+	watch(ctx)
+	defer unwatch()
+	c, ok := newAdopted(conf)
+	if !ok {
+		m.count("dequeued_setup_failed")
+		kioshun.VerifSchedReset(false, 0)
+		return
+	}
+	c.VerifHoldShard(0, true) // the shard lock is busy: the inline attempt fails whatever else it checks, the write is queued
+	e1 := c.SetAsync(7, 1, kioshun.NoExpiration)
+	c.VerifHoldShard(0, false)
+	if e1 != nil {
+		m.violate("C04", ctx+": SetAsync failed", ctx)
+	}
+	if p := stepUntil(1000, 312); p != 312 { // worker: wake, token, dequeue, parked before the shard lock
+		m.count("dequeued_setup_failed")
+		closeAdopted(m, c, ctx)
+		return
+	}
+	e2 := c.SetAsync(7, 2, kioshun.NoExpiration) // free-running caller: the earlier write has returned long ago
+	stepUntil(1000, 301)
+	for i := 0; i < 10; i++ { // let the worker drain whatever the second call queued
+		stepUntil(1000, 301)
+	}
+	kioshun.VerifSchedSpawn(3, func() { c.Sync() })
+	for i := 0; i < 20; i++ {
+		if stepUntil(3, -100) == kioshun.VerifStepDone {
+			break
+		}
+		stepUntil(1000, 301)
+	}
+	if v, ok := c.Get(7); e2 == nil && (!ok || v != 2) {
+		for _, p := range []string{"C04", "C01"} {
+			m.violate(p, fmt.Sprintf("%s: SetAsync(7,1) returned; the worker dequeued it and was parked before the shard lock; SetAsync(7,2) then returned nil; after the worker ran and Sync: Get(7)=(%d,%v), the later accepted write must win", ctx, v, ok), ctx)
+		}
+	}
+	closeAdopted(m, c, ctx)
+	m.count("inline_behind_dequeued_rounds")
+}
+
 // closeNotify (C06): evictions staged while the notifier is busy inside a listener, then Close: every entry that
 // left before Close must still be reported exactly once.
 func closeNotify(m *meta, rng *rand.Rand, round int) {
@@ -1943,6 +1989,7 @@ func streamConc(o opts) {
 			stalledProducer(m, rng, r)
 			syncOvertake(m, rng, r)
 			syncFence(m, rng, r)
+			inlineBehindDequeued(m, rng, r)
 			closeNotify(m, rng, r)
 			backlogProbe(m, rng, r)
 			massRemovalProbe(m, rng, r)
